@@ -259,6 +259,114 @@ pub fn run_crash_states(ops: &[Op], local: &mut Local) -> Check {
     Ok(())
 }
 
+/// "Virtual" logs: the reference builds and signs a tree from leaf sizes and leaf hashes alone
+/// (sizes up to 2^40 per leaf, so byte lengths beyond 2^32 occur without any real data) and
+/// serves proofs; the crate, as a replica, must accept them, persist exactly those nodes and
+/// serve them back unchanged (sizes included), also after a reopen.
+#[derive(Clone, Debug, PartialEq, Eq, Hash, Serialize, Deserialize)]
+pub struct VirtCase {
+    pub sizes: Vec<u8>,
+    /// tree nodes fetched by hash proofs afterwards (selectors)
+    pub fetch: Vec<u16>,
+}
+
+pub const VIRT_SIZES: [u64; 10] = [0, 1, 2, 65535, 65536, (1 << 32) - 1, 1 << 32, (1 << 32) + 4711, (1 << 40) + 3, 300];
+
+pub fn virt_strategy() -> impl Strategy<Value = VirtCase> {
+    (prop::collection::vec(0u8..VIRT_SIZES.len() as u8, 1..20), prop::collection::vec(any::<u16>(), 0..8)).prop_map(|(sizes, fetch)| VirtCase { sizes, fetch })
+}
+
+fn rnode_to_node(n: &crate::reftree::RNode) -> hypercore::Node {
+    hypercore::Node::new(n.index, n.hash.to_vec(), n.size)
+}
+
+pub fn run_virtual(c: &VirtCase, local: &mut Local) -> Check {
+    use crate::reftree as ft;
+    use ed25519_dalek::Signer;
+    let n = c.sizes.len() as u64;
+    let mut reft = RefTree::new();
+    for (i, s) in c.sizes.iter().enumerate() {
+        let size = VIRT_SIZES[*s as usize % VIRT_SIZES.len()];
+        let hash = ft::leaf_hash(&[(i as u8) ^ 0x5a, *s, 7, (i >> 8) as u8]); // any 32 non-zero-looking bytes
+        reft.append_leaf(size, hash);
+    }
+    let total: u64 = reft.byte_length_at(n);
+    let sk = hypercore::SigningKey::from_bytes(&hc::TEST_SECRET_KEY_BYTES);
+    let sig = sk.sign(&reft.signable_at(n, 0)).to_bytes().to_vec();
+    let disk = Disk::new();
+    let mut r = match hc::create(&disk, hc::public_only(&hc::test_keypair())) {
+        Ok(Ok(c)) => c,
+        Ok(Err(e)) => return Err(Failure::new("create-error", e.to_string())),
+        Err(p) => return Err(panic_failure("create replica", &p)),
+    };
+    let up = hypercore::Proof {
+        fork: 0,
+        block: None,
+        hash: None,
+        seek: None,
+        upgrade: Some(hypercore::DataUpgrade { start: 0, length: n, nodes: reft.roots_at(n).iter().map(rnode_to_node).collect(), additional_nodes: vec![], signature: sig.clone() }),
+    };
+    let what = format!("reference-signed upgrade to a virtual log of {n} leaves, {total} bytes");
+    match catch(|| block_on(r.verify_and_apply_proof(&up))).map_err(|p| panic_failure(&what, &p))? {
+        Ok(true) => {}
+        other => return Err(Failure::new("reference-proof-refused", format!("{what} was not accepted: {other:?}"))),
+    }
+    // hash proofs for some inner nodes / leaves
+    let roots = ft::full_roots(n);
+    let all = RefTree::full_indices(n);
+    for f in &c.fetch {
+        let j = all[crate::model::sel(*f, all.len() as u64) as usize];
+        if roots.contains(&j) {
+            continue;
+        }
+        let mut nodes = vec![rnode_to_node(reft.get(j).unwrap())];
+        let mut cur = j;
+        loop {
+            let p = ft::parent(cur);
+            nodes.push(rnode_to_node(reft.get(ft::sibling(cur)).unwrap()));
+            if roots.contains(&p) {
+                break;
+            }
+            cur = p;
+        }
+        let hp = hypercore::Proof { fork: 0, block: None, hash: Some(hypercore::DataHash { index: j, nodes }), seek: None, upgrade: None };
+        let what = format!("reference hash proof for node {j} of the virtual log");
+        match catch(|| block_on(r.verify_and_apply_proof(&hp))).map_err(|p| panic_failure(&what, &p))? {
+            Ok(true) => {}
+            other => return Err(Failure::new("reference-proof-refused", format!("{what} was not accepted: {other:?}"))),
+        }
+        local.class("reference_hash_proofs_accepted");
+    }
+    for round in 0..2 {
+        let ctxt = format!("virtual log of {n} leaves / {total} bytes, {}", if round == 0 { "live" } else { "after reopen" });
+        let info = r.info();
+        if info.length != n || info.byte_length != total {
+            return Err(Failure::new("virtual-info-mismatch", format!("{ctxt}: info reports ({}, {}) but the signed tree has ({n}, {total})", info.length, info.byte_length)));
+        }
+        check_persisted(&disk, &reft, false, &ctxt)?;
+        // served back: upgrade proof and a hash proof
+        let served = catch(|| block_on(r.create_proof(None, None, None, Some(RequestUpgrade { start: 0, length: n })))).map_err(|p| panic_failure(&ctxt, &p))?;
+        match served {
+            Ok(Some(p)) => check_proof_nodes(&PProof::from_proof(&p), &reft, n, &ctxt)?,
+            other => return Err(Failure::new("virtual-upgrade-not-served", format!("{ctxt}: the replica does not serve the upgrade it holds: {other:?}"))),
+        }
+        if round == 0 {
+            drop(r);
+            r = match hc::open(&disk) {
+                Ok(Ok(c)) => c,
+                Ok(Err(e)) => return Err(Failure::new(format!("reopen-error:{}", err_kind(&e)), format!("{ctxt}: reopen failed: {e}"))),
+                Err(p) => return Err(panic_failure("reopen", &p)),
+            };
+        }
+    }
+    local.class("virtual_logs");
+    if total >= 1 << 32 {
+        local.class("virtual_logs_beyond_4GiB");
+        local.nontrivial(c);
+    }
+    Ok(())
+}
+
 #[derive(Clone, Debug, Serialize, Deserialize)]
 pub struct LenCase {
     pub len: u64,
@@ -303,7 +411,9 @@ pub fn run(ctx: &Ctx) {
          lengths 0..70 x 3 size patterns x 4 build modes. Stage 2: seeded-random sequences (up to ~600 blocks, sizes 0..4096). \
          Stage 3: replicas filled by C03 sessions (every stored node must equal the reference). Stage 4: every \
          crash state (journal prefix) of random writer histories, after reopening: persisted nodes complete for the recovered length \
-         and equal to the reference, signatures valid. Non-trivial = length with >= 2 roots \
+         and equal to the reference, signatures valid. Stage 5: 'virtual' logs - the reference builds and signs a tree \
+         from leaf sizes/hashes alone (leaf sizes up to 2^40, byte lengths beyond 2^32) and serves upgrade and hash proofs; the crate as \
+         replica must accept them, persist and serve back exactly those nodes, also after reopen. Non-trivial = length with >= 2 roots \
          and >= 1 reopen or batch; distinct = block size vectors.",
     );
     ctx.assume("BLAKE2b, Ed25519 and CRC32 primitives come from the same upstream crates as /repo uses (trusted base); the scheme is re-implemented independently");
@@ -321,6 +431,7 @@ pub fn run(ctx: &Ctx) {
     random_stage(ctx, "random", ctx.tier.pick(2_000, 100_000), tops_strategy, |ops: &Vec<TOp>, local| run_tops(ops, local));
     random_stage(ctx, "replicas", ctx.tier.pick(1_500, 80_000), || session_strategy(30), |ops: &Vec<SOp>, local| run_replica(ops, local));
     random_stage(ctx, "crash-states", ctx.tier.pick(1_200, 60_000), || crate::props::c02::crash_history_strategy(14), |ops: &Vec<Op>, local| run_crash_states(ops, local));
+    random_stage(ctx, "virtual-sizes", ctx.tier.pick(3_000, 60_000), virt_strategy, |c: &VirtCase, local| run_virtual(c, local));
     // a few large logs
     let big = ctx.tier.pick(2u64, 8u64);
     indexed_stage(
@@ -340,6 +451,10 @@ pub fn replay(case: &Value) -> Check {
     }
     if let Ok(ops) = serde_json::from_value::<Vec<TOp>>(case.clone()) {
         return run_tops(&ops, &mut l);
+    }
+    if case.get("sizes").is_some() {
+        let c: VirtCase = serde_json::from_value(case.clone()).map_err(|e| Failure::new("bad-replay", e.to_string()))?;
+        return run_virtual(&c, &mut l);
     }
     if let Ok(ops) = serde_json::from_value::<Vec<Op>>(case.clone()) {
         return run_crash_states(&ops, &mut l);
